@@ -2,3 +2,5 @@
 pub(crate) mod rayon;
 #[cfg(feature = "serde")]
 mod serde;
+#[cfg(all(hashbrown_verif, feature = "serde"))]
+pub(crate) use self::serde::verif as serde_verif;
